@@ -320,8 +320,9 @@ func min3(a, b int) int {
 
 func init() {
 	p := &core.Property{
-		ID:   "C06",
-		Rule: "cases (alg, key, count, bearer, direction, payload, bit length) through NASEncrypt (octet lengths), NEA1/2/3 (bit lengths) and the raw keystream generators; every bit length 0..1100 (thorough 0..2200) plus 2^k±{0,1,7,8,31,32,63,64}; all 64 bearer×direction values; structured and random keys/counts/payloads. Non-trivial = alg in {1,2,3} and length > 0; distinct by the full parameter tuple.",
+		ID:         "C06",
+		Interleave: []string{"cipher"},
+		Rule:       "cases (alg, key, count, bearer, direction, payload, bit length) through NASEncrypt (octet lengths), NEA1/2/3 (bit lengths) and the raw keystream generators; every bit length 0..1100 (thorough 0..2200) plus 2^k±{0,1,7,8,31,32,63,64}; all 64 bearer×direction values; structured and random keys/counts/payloads. Non-trivial = alg in {1,2,3} and length > 0; distinct by the full parameter tuple.",
 		Assumptions: []string{
 			"reference SNOW 3G / ZUC / AES-CTR written in /verif from the specifications, validated at start-up on 43 published vectors (UEA2/UIA2, EEA2/EIA2, EEA3/EIA3, keystream sets, SP 800-38B)",
 			"only the first LENGTH bits of the output are compared; bit lengths are within 0..8*len(buffer)",
@@ -561,8 +562,9 @@ func c07MacSeq(c *core.Ctx, k *core.Case) {
 
 func init() {
 	p := &core.Property{
-		ID:   "C07",
-		Rule: "cases (alg, key, count, bearer, direction, message, bit length) through NASMacCalculate (octet lengths) and NIA1/2/3 (bit lengths); every bit length 0..1100 (thorough 0..2200) plus 2^k±{0,1,7,8,31,32,63,64}; all 64 bearer×direction values; each non-octet length both with a zero tail and with a dirty tail (bits after the message end set, and extra octets after it). Non-trivial = alg in {1,2,3} and length > 0; distinct by the full parameter tuple.",
+		ID:         "C07",
+		Interleave: []string{"mac"},
+		Rule:       "cases (alg, key, count, bearer, direction, message, bit length) through NASMacCalculate (octet lengths) and NIA1/2/3 (bit lengths); every bit length 0..1100 (thorough 0..2200) plus 2^k±{0,1,7,8,31,32,63,64}; all 64 bearer×direction values; each non-octet length both with a zero tail and with a dirty tail (bits after the message end set, and extra octets after it). Non-trivial = alg in {1,2,3} and length > 0; distinct by the full parameter tuple.",
 		Assumptions: []string{
 			"reference UIA2-f9 / AES-CMAC / EIA3 written in /verif from the specifications, validated at start-up on the published vectors",
 			"the MAC of a zero-length message is the value the specifications' formulae give (f9: D=1, no message block; CMAC over the 8-octet header; EIA3: z[0] xor z[32])",
@@ -981,6 +983,7 @@ func c08Point(c *core.Ctx, k *core.Case) {
 func init() {
 	p := &core.Property{
 		ID:          "C08",
+		Interleave:  []string{"laws", "point"},
 		Rule:        "laws: for valid parameters (alg 0..3, all 64 bearer×direction values) and payload lengths 0..300 plus a few large: length preservation, involution, prefix stability at word/block boundaries, keystream independence of the plaintext, determinism, NULL algorithm, 4-octet MAC, message untouched. grid: quick alg 0..7 × bearer 0..255 × direction 0..3 (thorough: all 256×256×256) × 3 payload lengths through NASEncrypt and NASMacCalculate: invalid ⇒ error and untouched payload, valid ⇒ nil error; nil payload for every algorithm. Non-trivial = valid parameters with non-empty payload, or an invalid combination; distinct by the parameter tuple.",
 		Assumptions: []string{"key arrays are passed by value, so key modification is unobservable by construction"},
 		Oracles:     map[string]func(*core.Ctx, *core.Case){"laws": c08Laws, "grid": c08Grid, "point": c08Point},
